@@ -213,6 +213,13 @@ var Ops = []Op{
 	repl(kEnt, "value-duration-double-sign", replaceValue("--1h")),
 	repl(kEnt, "value-duration-upper", replaceValue("1H")),
 	repl(kEnt, "value-garbage", replaceValue("foo")),
+	repl(kEnt, "value-garbage-non-ascii", replaceValue("Frühstück")),
+	repl(kEnt, "value-garbage-cjk", replaceValue("昼ご飯")),
+	repl(kEnt, "value-garbage-after-long-text", func(l, u string) string {
+		i, _, r := entryParts(l, u)
+		return i + "8:00 - 9:00x" + r + " " + strings.Repeat("a very long summary text ", 6)
+	}),
+	repl(kSum, "summary-very-long-then-entry-fault", func(l, _ string) string { return l + " " + strings.Repeat("wörter und mehr wörter ", 8) }),
 	repl(kEnt, "value-percent", replaceValue("50%")),
 	repl(kEnt, "value-empty-hash", replaceValue("#tag")),
 	repl(kEnt, "value-valid-duration", replaceValue("-2h5m")), // rule-preserving
